@@ -49,6 +49,13 @@ func checkExact(c ExactCase) error {
 	if err := exact(t); err != nil {
 		return fmt.Errorf("fresh tree %s: %v", ref.Write(c.Tree), err)
 	}
+	// recomputing the indexes of an indexed tree changes nothing
+	if err := t.ReinitIndexes(); err != nil {
+		return fmt.Errorf("second ReinitIndexes: %v", err)
+	}
+	if err := exact(t); err != nil {
+		return fmt.Errorf("after a second ReinitIndexes on %s: %v", ref.Write(c.Tree), err)
+	}
 	st := ops.State{T: t}
 	indexed := true
 	var watched []*tree.Tree
